@@ -235,6 +235,7 @@ package db
 //@   trusted
 //@   modifies doc._body
 //@   ensures[cached] old(doc._body) != nil ==> result == old(doc._body)
+//@   ensures[stored] result != nil ==> doc._body == result   // every non-nil return of Body() is `return doc._body`
 //@   ensures[parsed] old(doc._body) == nil ==> (forall k string :: {k in result} (k in result) <==> (doc._rawBody != nil && c19JSONHasKey(doc._rawBody, k)))
 
 // Document.MarshalBodyAndSync is TRUSTED (thin frame contract): JSON encoding (base.InjectJSONProperties /
